@@ -24,6 +24,7 @@ import Pysmi.Generated.Smiv1
 import Pysmi.Model.Grammar
 import Pysmi.Generated.Grammar
 import Pysmi.Model.Names
+import Pysmi.Model.Tree
 /-!
 Line-protocol driver: one JSON object per input line, one JSON value per output line.
 Imports only the import-free model files and `Lean.Data.Json`.
@@ -668,6 +669,12 @@ def opCli (j : Json) : Except String Json := do
     let cat (s : Pysmi.Compile.Status) : Json := .arr ((category p s).map Json.str).toArray
     return Json.mkObj [("exit", mibdumpExit ex p), ("compiled", cat .compiled), ("borrowed", cat .borrowed), ("untouched", cat .untouched),
       ("missing", cat .missing), ("unprocessed", cat .unprocessed), ("failed", cat .failed)]
+  else if what == "flavours" then
+    let os ← getList (fun e => do
+      let t ← e.getStr?
+      return (if t == "g" then Opt.genTexts else if t.startsWith "b:" then Opt.borrower (t.drop 2).toString else Opt.other)) (← j.getObjVal? "opts")
+    return Json.mkObj [("borrowers", .arr ((borrowerFlavours os false).map (fun e => Json.arr #[.str e.1, .bool e.2])).toArray),
+      ("request", .bool (requestFlavour os))]
   else if what == "modrev" then
     let revs ← getList (fun e => e.getNat?) (← j.getObjVal? "revs")
     return Json.mkObj [("rev", match moduleRevision revs with | some v => (v : Json) | none => .null)]
@@ -817,6 +824,18 @@ def opParse (ld : Loaded) (j : Json) : Except String Json := do
   | .other m => return Json.mkObj [("error", .str ("other: " ++ m))]
 end Pr
 
+namespace Tr
+open Pysmi.Tree
+partial def dir (j : Json) : Except String Dir := do
+  let files ← (← (← j.getObjVal? "files").getArr?).toList.mapM (fun n => n.getStr?)
+  let subs ← (← (← j.getObjVal? "subs").getArr?).toList.mapM dir
+  return .mk files subs
+/-- {"op":"subdirs","tree":{"files":[…],"subs":[tree…]}} → {"dirs":[[file…]…],"count":n} -/
+def opSubdirs (j : Json) : Except String Json := do
+  let t ← dir (← j.getObjVal? "tree")
+  return Json.mkObj [("dirs", .arr ((t.flatten.map (fun fs => Json.arr ((fs.map Json.str).toArray))).toArray)), ("count", t.size)]
+end Tr
+
 namespace Nm
 /-- {"op":"trans","names":[…]} → {"keys":[…]} -/
 def opTrans (j : Json) : Except String Json := do
@@ -866,6 +885,7 @@ def handle (j : Json) : Except String Json := do
   | "put2" => Wr.opPut2 j
   | "factory" => Gf.opFactory j
   | "trans" => Nm.opTrans j
+  | "subdirs" => Tr.opSubdirs j
   | _ => throw s!"unknown op {op}"
 
 partial def loop (hin hout : IO.FS.Stream) (loaded : List (String × Pr.Loaded)) : IO Unit := do
